@@ -92,6 +92,7 @@ def classify(ans):
 
 def run(run):
     from seismic_zfp.read import SgzReader
+    run.mc('MC_Reader', f'MC_Reader_C14_{run.tier}')
     rng = np.random.default_rng(run.seed)
     quick = run.tier == 'quick'
     fx = inputs.fixture_sgz()
@@ -118,6 +119,12 @@ def run(run):
             out = readcalls.invoke(readers[fi], op, a)
         ok, detail = readcalls.compare(out, ans['alts'], fc.ref,
                                        header_of=lambda t, fc=fc, ans=ans: fc.header([x for x in ans['alts'] if x['kind'] == 'header'][0]['grid']))
+        mk = ans['model']['kind']
+        if mk not in ('unmodelled', 'skipped'):
+            if (mk == 'value' and out[0] == 'value') or (out[0] == 'raise' and mk in out[2]):
+                run.traces_validated += 1
+            else:
+                run.drift(f'model outcome {mk} vs code {readcalls.describe(out)[:60]} for {op}{a} on {fc.label}')
         if not ok and out[0] == 'raise':
             # raised, but not the class the property names
             run.fail(f'C14.exc-class[{op}]', case, detail, [x.get('exc', x['kind']) for x in ans['alts']])
